@@ -282,11 +282,13 @@ pub fn consume(resp: Response, plan: &ReadPlan, extra_after_end: usize) -> Consu
             let mut delivered = Vec::new();
             let mut buf = vec![0u8; (*step).max(1)];
             let mut calls = 0;
+            let mut interrupted = 0;
             while delivered.len() < *prefix {
                 match resp.read(&mut buf) {
                     Ok(0) => return Consumed { delivered, end: End::Clean, read_calls: calls, short_reads: 0, interrupted: 0, after_end: vec![], after_end_bytes: vec![] },
                     Ok(n) => delivered.extend_from_slice(&buf[..n.min(buf.len())]),
-                    Err(e) if e.kind() == io::ErrorKind::Interrupted && calls < 1000 => {}
+                    // the std contract: a caller retries a read that was interrupted
+                    Err(e) if e.kind() == io::ErrorKind::Interrupted && interrupted < 1000 => interrupted += 1,
                     Err(e) => return Consumed { delivered, end: End::Error(format!("{:?}: {}", e.kind(), e)), read_calls: calls, short_reads: 0, interrupted: 0, after_end: vec![], after_end_bytes: vec![] },
                 }
                 calls += 1;
